@@ -1,16 +1,18 @@
 package c11world
 
 import (
+	"errors"
 	"fmt"
+	"runtime/debug"
 	"sort"
 	"strings"
 	"time"
 
 	"verifsim/kit"
+	"verifsim/simdisk"
 	"verifsim/worlds/chainkit"
 
 	"github.com/youchainhq/go-youchain/common"
-	"github.com/youchainhq/go-youchain/core"
 	"github.com/youchainhq/go-youchain/core/rawdb"
 	"github.com/youchainhq/go-youchain/core/types"
 )
@@ -21,7 +23,7 @@ import (
 // (core/blockchain.go:810), so nothing that is logged may distinguish them.
 func (cx *world) entryKind(i int) string {
 	set := map[string]bool{}
-	cx.disk.EntryOps(i, func(key string, val []byte, del bool) {
+	cx.live.disk.EntryOps(i, func(key string, val []byte, del bool) {
 		set[keyKind(key, del)] = true
 	})
 	var ks []string
@@ -59,48 +61,70 @@ func keyKind(key string, del bool) string {
 	return "other"
 }
 
-// crashPoints selects the write indexes k (image = first k writes of the offer) to restart on:
-// every k next to a non-state write (block, receipts, lookups, canonical hash, head markers —
-// where the ordering windows are), one seeded interior point per run of state-trie writes,
-// and k = W (crash right after the last write). If that exceeds the cap, a seeded stratified
-// sample of it.
-func (cx *world) crashPoints(kinds []string, cap int) (ks []int, full bool) {
-	c := cx.r.C
-	W := len(kinds)
-	pick := map[int]bool{W: true}
-	runStart := -1
-	for i := 0; i <= W; i++ {
-		isState := i < W && kinds[i] == "state"
-		if isState && runStart < 0 {
-			runStart = i
-		}
-		if !isState && runStart >= 0 {
-			// state run [runStart, i): interior crash points k in (runStart, i)
-			if n := i - runStart - 1; n > 0 {
-				pick[runStart+1+c.Intn("state-interior", n)] = true
+// segment is one logical write of an offer: one non-state log entry, or one maximal run of
+// state (trie node / preimage) batches. WriteBlockWithState flushes its three tries in Go map
+// order (core/blockchain.go:810) and an unchanged trie flushes nothing unless it happens to
+// come first and carries the preimages, so the NUMBER of physical state batches per block is
+// not a function of the seed; the sequence of segments is.
+type segment struct {
+	kind       string
+	start, end int // physical log entries [start, end)
+}
+
+// point is one crash point: the durable image holds the physical writes [0, k).
+type point struct {
+	k    int
+	seg  int  // index of the last (partly) durable segment
+	mid  bool // inside a run of state batches: some but not all of them durable
+	prev string
+	next string
+}
+
+func (pt point) String() string {
+	if pt.mid {
+		return fmt.Sprintf("%d.5", pt.seg)
+	}
+	return fmt.Sprint(pt.seg + 1)
+}
+
+func segments(kinds []string) []segment {
+	var segs []segment
+	for i := 0; i < len(kinds); {
+		j := i + 1
+		if kinds[i] == "state" {
+			for j < len(kinds) && kinds[j] == "state" {
+				j++
 			}
-			runStart = -1
 		}
+		segs = append(segs, segment{kind: kinds[i], start: i, end: j})
+		i = j
 	}
-	for k := 1; k <= W; k++ {
-		if kinds[k-1] != "state" || (k < W && kinds[k] != "state") {
-			pick[k] = true
+	return segs
+}
+
+// crashPoints enumerates the crash points of an offer: after every logical write (block body,
+// header, state commit, receipts+lookups batch, lookup put/delete, canonical hash, head
+// markers), and inside every state commit that consists of more than one physical batch. If
+// that exceeds the cap, a seeded stratified sample of it.
+func (cx *world) crashPoints(segs []segment, cap int) (pts []point, full bool) {
+	c := cx.r.C
+	for i, sg := range segs {
+		next := "end"
+		if i+1 < len(segs) {
+			next = segs[i+1].kind
 		}
-	}
-	for k := range pick {
-		if k >= 1 {
-			ks = append(ks, k)
+		if sg.kind == "state" && sg.end-sg.start > 1 {
+			pts = append(pts, point{k: sg.start + 1, seg: i, mid: true, prev: "state", next: "state"})
 		}
+		pts = append(pts, point{k: sg.end, seg: i, prev: sg.kind, next: next})
 	}
-	sort.Ints(ks)
-	if len(ks) <= cap {
-		return ks, true
+	if len(pts) <= cap {
+		return pts, true
 	}
-	// stratified sample of size cap
-	var out []int
+	var out []point
 	for i := 0; i < cap; i++ {
-		lo, hi := i*len(ks)/cap, (i+1)*len(ks)/cap
-		out = append(out, ks[lo+c.Intn("crash-sample", hi-lo)])
+		lo, hi := i*len(pts)/cap, (i+1)*len(pts)/cap
+		out = append(out, pts[lo+c.Intn("crash-sample", hi-lo)])
 	}
 	return out, false
 }
@@ -138,10 +162,116 @@ func (cx *world) pickX(h *node) (*node, string) {
 	return n, ""
 }
 
-func (cx *world) insert(ch *core.BlockChain, bs types.Blocks) error {
-	err := ch.InsertChain(bs)
+// sut is one node under test (the live node or a restarted image).
+type sut struct {
+	im   *chainkit.Importer
+	disk *simdisk.Disk
+	dead bool // a panic escaped from InsertChain: the process is dead, locks are held for ever
+}
+
+var errPanicked = errors.New("PANIC in InsertChain (process died)")
+
+// insert calls InsertChain the way the downloader/fetcher goroutines do. A panic that escapes
+// from the code under test is a process death: it is reported as a violation (class named
+// after the panicking function), the node is marked dead and its goroutines are told to quit.
+// The call runs on a helper goroutine so that the simulator survives it.
+func (cx *world) insert(s *sut, bs types.Blocks) error {
+	if s.dead {
+		return errPanicked
+	}
+	type res struct {
+		err   error
+		pv    interface{}
+		stack string
+	}
+	ch := make(chan res, 1)
+	go func() {
+		defer func() {
+			if v := recover(); v != nil {
+				ch <- res{pv: v, stack: string(debug.Stack())}
+			}
+		}()
+		ch <- res{err: s.im.Chain.InsertChain(bs)}
+	}()
+	out := <-ch
 	kit.Wait()
-	return err
+	if out.pv == nil {
+		return out.err
+	}
+	s.dead = true
+	cx.leaked = true
+	if cx.r.HasClass("logging-crit") {
+		cx.r.Abort()
+	}
+	fn, frames := repoFrames(out.stack)
+	if fn == "" {
+		panic(fmt.Sprintf("c11world: harness panic during InsertChain: %v\n%s", out.pv, out.stack))
+	}
+	cx.r.Report("panic-in-"+fn, "InsertChain(%s) panicked: %v | %s", cx.names(bs, nil), out.pv, frames)
+	cx.r.Logf("  PANIC in %s: %v", fn, out.pv)
+	s.disk.Freeze()
+	// tell the dead node's goroutines to quit; Stop itself never returns (the wait group and
+	// chainMu of the interrupted InsertChain are held for ever)
+	go func() { s.im.Stk.Stop(); s.im.Chain.Stop() }()
+	kit.Wait()
+	return errPanicked
+}
+
+// repoFrames extracts the panicking function and a short frame list, provided the frame that
+// panicked (the first non-runtime frame below runtime.gopanic) lies in the code under test
+// (/repo, or the scratch copy of it under mutant.sh); otherwise fn is "" (harness bug).
+func repoFrames(stack string) (fn string, frames string) {
+	lines := strings.Split(stack, "\n")
+	var out []string
+	seenPanic, decided := false, false
+	for i := 1; i < len(lines); i++ {
+		ln := strings.TrimSpace(lines[i])
+		if !strings.HasPrefix(ln, "/") {
+			continue
+		}
+		if strings.Contains(ln, "/runtime/panic.go") {
+			seenPanic = true
+			continue
+		}
+		if !seenPanic || strings.Contains(ln, "/runtime/") || strings.Contains(ln, "/src/") {
+			continue
+		}
+		j := strings.Index(ln, "/repo/")
+		inRepo := j >= 0 && !strings.Contains(ln, "/verif/sim/")
+		if !decided {
+			decided = true
+			if !inRepo {
+				return "", ""
+			}
+		}
+		if !inRepo {
+			continue
+		}
+		if k := strings.Index(ln, " +0x"); k > 0 {
+			ln = ln[:k]
+		}
+		out = append(out, ln[j+len("/repo/"):])
+		if fn == "" {
+			f := strings.TrimSpace(lines[i-1])
+			if k := strings.LastIndex(f, "("); k > 0 {
+				f = f[:k]
+			}
+			if k := strings.LastIndex(f, "/"); k >= 0 {
+				f = f[k+1:]
+			}
+			fn = f
+		}
+		if len(out) >= 7 {
+			break
+		}
+	}
+	return fn, strings.Join(out, " < ")
+}
+
+func (cx *world) stopSut(s *sut) {
+	if s != nil && !s.dead {
+		s.im.Stop(kit.Wait)
+	}
 }
 
 func errClass(err error) string {
@@ -183,11 +313,16 @@ func (cx *world) enumerate(o *offer, W int, reorged bool, after *view) {
 		r.Count("diag.enum-skipped-no-x", 1)
 		return
 	}
-	ks, full := cx.crashPoints(kinds, capN)
-	errX := cx.insert(cx.live.Chain, types.Blocks{x.blk})
+	segs := segments(kinds)
+	pts, full := cx.crashPoints(segs, capN)
+	logDisk := cx.live.disk // the disk whose write log holds the offer (kept if the live node dies below)
+	errX := cx.insert(cx.live, types.Blocks{x.blk})
 	cx.markDelivered(x)
-	ref := cx.checkChain("live", fmt.Sprintf("after further block %s following offer %d", x.name, o.idx), cx.live.Chain, cx.disk)
-	r.Logf("  reference: further block %s -> %s head=%s(%d); %d writes, %d crash points (full=%v) kinds=%s", x.name, errClass(errX), cx.nameOf(ref.headH), cx.live.Chain.CurrentBlock().NumberU64(), W, len(ks), full, compressKinds(kinds))
+	if cx.live.dead {
+		cx.reviveLive()
+	}
+	ref := cx.checkChain("live", fmt.Sprintf("after further block %s following offer %d", x.name, o.idx), cx.live.im.Chain, cx.live.disk)
+	r.Logf("  reference: further block %s -> %s head=%s(%d); %d logical writes, %d crash points (full=%v): %s", x.name, errClass(errX), cx.nameOf(ref.headH), cx.live.im.Chain.CurrentBlock().NumberU64(), len(segs), len(pts), full, segString(segs))
 	if ref.headH == x.blk.Hash() {
 		r.Probe("further block became head")
 	}
@@ -196,40 +331,27 @@ func (cx *world) enumerate(o *offer, W int, reorged bool, after *view) {
 	} else {
 		r.Probe("offer sampled")
 	}
-	for _, k := range ks {
-		cx.crashAt(o, k, kinds, x, ref, reorged)
+	for _, pt := range pts {
+		cx.crashAt(logDisk, o, pt, len(segs), x, ref, reorged)
 	}
 }
 
-func compressKinds(kinds []string) string {
+func segString(segs []segment) string {
 	var b strings.Builder
-	for i := 0; i < len(kinds); {
-		j := i
-		for j < len(kinds) && kinds[j] == kinds[i] {
-			j++
-		}
-		if b.Len() > 0 {
+	for i, sg := range segs {
+		if i > 0 {
 			b.WriteByte(' ')
 		}
-		if j-i > 1 {
-			fmt.Fprintf(&b, "%s*%d", kinds[i], j-i)
-		} else {
-			b.WriteString(kinds[i])
-		}
-		i = j
+		b.WriteString(sg.kind)
 	}
 	return b.String()
 }
 
-func (cx *world) crashAt(o *offer, k int, kinds []string, x *node, ref *view, reorged bool) {
+func (cx *world) crashAt(logDisk *simdisk.Disk, o *offer, pt point, nseg int, x *node, ref *view, reorged bool) {
 	r := cx.r
-	W := len(kinds)
-	prevK, nextK := kinds[k-1], "end"
-	if k < W {
-		nextK = kinds[k]
-	}
-	where := fmt.Sprintf("offer %d %s, process killed after write %d of %d (last durable write: %s; first lost write: %s)", o.idx, o.desc, k, W, prevK, nextK)
-	img := cx.disk.Prefix(k)
+	k, prevK, nextK := pt.k, pt.prev, pt.next
+	where := fmt.Sprintf("offer %d %s, process killed after logical write %s of %d (last durable write: %s; first lost write: %s)", o.idx, o.desc, pt, nseg, prevK, nextK)
+	img := logDisk.Prefix(k)
 	cx.budget--
 	r.Fault("crash.prefix")
 	r.Steps++
@@ -262,13 +384,16 @@ func (cx *world) crashAt(o *offer, k int, kinds []string, x *node, ref *view, re
 	if o.sideStored {
 		r.Probe("crash while storing a side chain without state")
 	}
+	cx.fam = "@" + windowFamily(prevK, nextK)
+	defer func() { cx.fam = "" }()
 	im, err := chainkit.NewImporter(img, cx.w.Genesis, kit.Wait)
 	if err != nil {
-		r.Report("crash-restart-failed", "%s: restart through NewVRFServer/NewBlockChain failed: %v", where, err)
-		r.Logf("  k=%d [%s|%s] RESTART FAILED: %v", k, prevK, nextK, err)
+		r.Report("crash-restart-failed"+cx.fam, "%s: restart through NewVRFServer/NewBlockChain failed: %v", where, err)
+		r.Logf("  p=%s [%s|%s] RESTART FAILED: %v", pt, prevK, nextK, err)
 		return
 	}
-	defer im.Stop(kit.Wait)
+	s := &sut{im: im, disk: img}
+	defer cx.stopSut(s)
 	marker := rawdb.ReadHeadBlockHash(img)
 	rewound := marker != im.Chain.CurrentBlock().Hash()
 	if rewound {
@@ -279,25 +404,25 @@ func (cx *world) crashAt(o *offer, k int, kinds []string, x *node, ref *view, re
 	var e1 error
 	if o.kind == "tick" {
 		for _, b := range o.requeue {
-			if e := cx.insert(im.Chain, types.Blocks{b}); e != nil && e1 == nil {
+			if e := cx.insert(s, types.Blocks{b}); e != nil && e1 == nil {
 				e1 = e
 			}
 		}
 	} else {
-		e1 = cx.insert(im.Chain, o.blocks)
+		e1 = cx.insert(s, o.blocks)
 	}
-	v2 := cx.checkChain("reoffer", where+", after the offer was imported again", im.Chain, img)
+	v2 := cx.checkChain("crash", where+", after the offer was imported again", im.Chain, img)
 	// one further valid block
-	e2 := cx.insert(im.Chain, types.Blocks{x.blk})
-	v3 := cx.checkChain("reoffer", where+", after the offer and further block "+x.name+" were imported", im.Chain, img)
+	e2 := cx.insert(s, types.Blocks{x.blk})
+	v3 := cx.checkChain("crash", where+", after the offer and further block "+x.name+" were imported", im.Chain, img)
 	match := v3.headH == ref.headH
 	if !match {
-		r.Report("crash-wedged-head", "%s: after importing the offer again (%s) and further block %s (%s) the head is %s(%d), the never-crashed node has %s", where, errClass(e1), x.name, errClass(e2), cx.nameOf(v3.headH), im.Chain.CurrentBlock().NumberU64(), cx.nameOf(ref.headH))
+		r.Report("crash-wedged-head"+cx.fam, "%s: after importing the offer again (%s) and further block %s (%s) the head is %s(%d), the never-crashed node has %s", where, errClass(e1), x.name, errClass(e2), cx.nameOf(v3.headH), im.Chain.CurrentBlock().NumberU64(), cx.nameOf(ref.headH))
 	} else if v3.roots != ref.roots || v3.dig != ref.dig {
 		match = false
-		r.Report("crash-wedged-state", "%s: same head %s as the never-crashed node but different state (roots equal=%v)", where, cx.nameOf(v3.headH), v3.roots == ref.roots)
+		r.Report("crash-wedged-state"+cx.fam, "%s: same head %s as the never-crashed node but different state (roots equal=%v)", where, cx.nameOf(v3.headH), v3.roots == ref.roots)
 	}
-	r.Logf("  k=%d [%s|%s] restart head=%s rewound=%v ok=%v; again->%s head=%s ok=%v; %s->%s head=%s match=%v", k, prevK, nextK,
+	r.Logf("  p=%s [%s|%s] restart head=%s rewound=%v ok=%v; again->%s head=%s ok=%v; %s->%s head=%s match=%v", pt, prevK, nextK,
 		cx.nameOf(v1.headH), rewound, v1.ok, errClass(e1), cx.nameOf(v2.headH), v2.ok, x.name, errClass(e2), cx.nameOf(v3.headH), match)
 	out := "ok"
 	if !v1.ok || !v2.ok || !v3.ok || !match {
@@ -307,3 +432,22 @@ func (cx *world) crashAt(o *offer, k int, kinds []string, x *node, ref *view, re
 }
 
 var _ = common.Hash{}
+
+// windowFamily names the ordering window a crash point falls into, from the kinds of the last
+// durable and the first lost write (the write order of WriteBlockWithState / reorg / insert):
+// "head-switch" = inside the three writes of the head switch (head-header marker, canonical
+// hash, head-block marker); "pre-head" = everything of the block is durable except the head
+// switch; "post-head" = the head was switched inside a reorg and the follow-up lookup
+// writes/deletions are lost; "other" = block data, state commit, between blocks, end of offer.
+func windowFamily(prev, next string) string {
+	isLookup := func(k string) bool { return strings.Contains(k, "lookup") || k == "receipts" }
+	switch {
+	case prev == "head-header" || prev == "canon":
+		return "head-switch"
+	case next == "head-header":
+		return "pre-head"
+	case (prev == "head-block" || prev == "lookup" || prev == "lookup-del") && isLookup(next):
+		return "post-head"
+	}
+	return "other"
+}
